@@ -191,3 +191,70 @@ func VP_C18_ForEach() {
 	vpAssert(ok, "the members seen are distinct members of the full result")
 	vpReach("end")
 }
+
+// VP_C15_Big: members longer than any fixed-size traversal stack (33, 40 and
+// 100 bytes, two of them sharing a long prefix, last bytes symbolic) and a
+// node with all 256 children (wider than any 8-bit child counter): ForEach
+// reports every member exactly once, Has agrees, also when stopped early.
+func VP_C15_Big() {
+	vpMapOrder(vpCase("order"))
+	t := New()
+	ref := &vpSet{}
+	add := func(b []byte) {
+		t.Add(b)
+		ref.add(append([]byte(nil), b...))
+	}
+	if vpCase("kind") == 0 {
+		for i, n := range []int{33, 40, 100} {
+			b := make([]byte, n)
+			for j := range b {
+				b[j] = byte('a' + (j*7+i/2)%5)
+			}
+			b[n-1] = vpByte("last" + vpDigit(i))
+			add(b)
+		}
+		add([]byte{vpByte("short")})
+	} else {
+		for c := 0; c < 256; c++ {
+			add([]byte{byte(c)})
+		}
+		add([]byte{'k', 'q'}) // absorbs the member "k"
+	}
+	var seen [][]byte
+	stop := vpCaseOr("stop", -1)
+	calls := 0
+	p := vpPanics(func() {
+		t.ForEach(func(b []byte) bool {
+			calls++
+			seen = append(seen, append([]byte(nil), b...))
+			return calls != stop && calls < len(ref.m)+8
+		})
+	})
+	vpAssert(!p, "ForEach does not panic")
+	if stop < 0 {
+		vpAssert(len(seen) == len(ref.m), "ForEach reports as many sequences as there are members")
+	} else {
+		want := stop
+		if want > len(ref.m) {
+			want = len(ref.m)
+		}
+		vpAssert(calls == want, "exactly min(stop, number of members) callbacks: none after the consumer declined, none beyond the members")
+	}
+	allMember, distinct := true, true
+	for i, s := range seen {
+		isM := false
+		for _, m := range ref.m {
+			isM = isM || vpEq(s, m)
+		}
+		allMember = allMember && isM
+		for j := 0; j < i; j++ {
+			distinct = distinct && !vpEq(s, seen[j])
+		}
+	}
+	vpAssert(allMember, "ForEach reports only members")
+	vpAssert(distinct, "ForEach reports every member once")
+	for _, m := range ref.m {
+		vpAssert(t.Has(m), "Has finds every member")
+	}
+	vpReach("end")
+}
